@@ -1048,6 +1048,20 @@ func (c *evalCtx) call(x *SExpr) (*Val, error) {
 			t = sIte(crs[k].pc, crs[k].val.T, t)
 		}
 		return &Val{T: t, S: v.S, GoT: v.GoT}, nil
+	case "visited":
+		// visited(): number of keys the map range loop whose invariant this is has visited so far
+		var comp string
+		for _, b := range c.fr.fn.Blocks {
+			for _, in := range b.Instrs {
+				if nx, ok := in.(*ssa.Next); ok && !nx.IsString && (c.hdr == nil || nx.Block() == c.hdr) {
+					comp = "SeenN_" + san(c.fr.prefix+"_"+nx.Iter.(*ssa.Range).Name())
+				}
+			}
+		}
+		if comp == "" {
+			return nil, fmt.Errorf("unbound:visited() outside a map range loop")
+		}
+		return in(e.get(c.cur, comp, "Int"))
 	case "closure":
 		// closure(f, "name suffix"): the function value f is, statically, the closure with that name
 		if args[0].Clo != nil && args[0].Clo.Fn != nil && strings.HasSuffix(fnKey(e.g, args[0].Clo.Fn), x.Args[1].Name) {
@@ -1314,11 +1328,20 @@ func (fr *Frame) collectDebug() {
 			switch x := in.(type) {
 			case *ssa.DebugRef:
 				if id, ok := x.Expr.(*ast.Ident); ok {
+					if v, isVar := x.Object().(*types.Var); isVar && v.IsField() {
+						continue // the selector part of x.f is not a variable of the function
+					}
 					fr.debug = append(fr.debug, dbgRef{id.Name, x.X, x.IsAddr, b, ord})
 				}
 			case *ssa.Phi:
 				if x.Comment != "" {
 					fr.debug = append(fr.debug, dbgRef{x.Comment, x, false, b, ord})
+				}
+			case *ssa.Alloc:
+				// the memory cell of a local variable (captured by a closure or address-taken): the variable's
+				// current value is what the cell holds
+				if x.Comment != "" && !strings.Contains(x.Comment, " ") && x.Comment != "complit" && x.Comment != "varargs" && x.Comment != "slicelit" && x.Comment != "makeslice" && x.Comment != "new" {
+					fr.debug = append(fr.debug, dbgRef{x.Comment, x, true, b, ord})
 				}
 			}
 		}
@@ -1357,9 +1380,20 @@ func (fr *Frame) lookupLocal(name string, hdr *ssa.BasicBlock, override map[ssa.
 	}
 	var best *dbgRef
 	bestDepth := -1
+	// a variable that lives in a memory cell (captured by a closure, address taken) is read through its address:
+	// that gives its current value, whereas a value recorded at one assignment is stale after the next one
+	hasAddr := false
+	for i := range fr.debug {
+		if d := &fr.debug[i]; d.name == name && d.isAddr && (at == nil || d.block.Dominates(at)) {
+			hasAddr = true
+		}
+	}
 	for i := range fr.debug {
 		d := &fr.debug[i]
 		if d.name != name {
+			continue
+		}
+		if hasAddr && !d.isAddr {
 			continue
 		}
 		if at != nil && !d.block.Dominates(at) {
